@@ -1217,6 +1217,31 @@ func (g *gen) runsFlow(v6 bool, id int, n int) []*Pkt {
 	return out
 }
 
+// Adjacent segments of one flow that differ ONLY in the NS/AE flag (bit 0 of TCP byte 12): set on one
+// segment of a run of three (first / middle / last), or clear on one while set on the others.
+func nsFlagCases() []Case {
+	g := &gen{r: rand.New(rand.NewSource(17))}
+	var cs []Case
+	for _, v6 := range []bool{false, true} {
+		for pos := 0; pos < 3; pos++ {
+			for _, set := range []bool{true, false} {
+				var f []*Pkt
+				for i := 0; i < 3; i++ {
+					p := tcpSeg(v6, 1, uint32(1+100*i), 100, false)
+					if (i == pos) == set {
+						p.Rsvd = 1
+					}
+					f = append(f, p)
+				}
+				name := fmt.Sprintf("nsflag/tcp%s/%s/%s", map[bool]string{false: "4", true: "6"}[v6], twinPosName[pos][:len(twinPosName[pos])-5],
+					map[bool]string{true: "set-on-one", false: "clear-on-one"}[set])
+				cs = append(cs, g.assemble(name, [][]*Pkt{f}, 16, true, 0))
+			}
+		}
+	}
+	return cs
+}
+
 func fixedCases() []Case {
 	g := &gen{r: rand.New(rand.NewSource(5))}
 	t4 := func(dst byte, seq uint32) *Pkt { p := mkTCP(false, seq, 0x10, 100); p.Dst = dst; return p }
@@ -1504,6 +1529,9 @@ func main() {
 		cases = append(cases, twinCases()...)
 		cases = append(cases, badCsumCases()...)
 		cases = append(cases, deleteCases()...)
+		if !*noFindings {
+			cases = append(cases, nsFlagCases()...)
+		}
 		cases = append(cases, fixedWriteSeq()...)
 		g := &gen{r: rand.New(rand.NewSource(*seed))}
 		for i := 0; i < *n; i++ {
